@@ -6,6 +6,9 @@
 From E57 Require Import Base.Prelude Model.Device Model.PagedReader Model.Record Model.Prog
   Model.QueueReader Model.FileBin Model.ReaderOpen Spec.BitSpec Spec.PageSpec Spec.FormatSpec Spec.FileSpec
   Proofs.PagedReaderCache Proofs.QueueReaderProofs Proofs.SpecReader Proofs.SpecC03.
+From Coq Require Import Permutation.
+From E57 Require Import Base.Floats Model.Meta Model.MetaFile Model.XmlTree Model.XmlParse Model.XmlExtract
+  Spec.FileSpecXml Spec.XmlRender Proofs.SpecXml Proofs.SpecXmlExample Proofs.SpecTypeDefaults Proofs.SpecTypeDefaults2.
 
 (** For EVERY file the independent, specification-driven encoder can emit - every order of
     blob and compressed-vector sections, the XML before, between or after them, any extra
@@ -90,8 +93,120 @@ Theorem C03_instance_computed :
   end.
 Proof. exact spec_file_read_computed. Qed.
 
+(** The XML plugged in: a file of the independent encoder whose XML text is ANY rendering [c]
+    ([render_choices]: attribute order and interleaving with namespace declarations, quote style,
+    character references, blanks inside tags, self-closing or not, CDATA or escaped text, XML
+    declaration, byte order mark, blanks between document-level nodes) of a well-formed tree [t]
+    that states the placements of the layout.  The reader model returns the XML bytes; parsing
+    them gives [t] back whatever [c] was; extraction gives the metadata of [t]; and reading each
+    extracted descriptor returns exactly the content the encoder placed there. *)
+Theorem C03_any_layout_any_rendering : forall (pf64 pf32 : xstr -> option N) (fdiv : N -> Z -> N)
+    (fl : file_layout) (t : xdoc) (m : file_meta) (c : render_choices),
+  file_layout_ok fl = true ->
+  wf_doc t = true ->
+  extract_all pf64 pf32 fdiv t = Ok m ->
+  let x := render c t in
+  Permutation (meta_descriptors m) (layout_descriptors 48 fl (len x)) ->
+  len x <= MAX_XML_SIZE ->
+  pcs_followed fl (len x) (spec_file_filler fl x) = true ->
+  len (spec_encode_file fl x) < 2 ^ 64 ->
+  let f := spec_encode_file fl x in
+  exists rs d',
+    reader_open (dev_init f None)
+    = (d', Ok (rs, mkHeader 1 0 (len f) (phys_of_log (xml_start 48 fl (len x))) (len x) 1024, x)) /\
+    pr_inv 1024 f rs /\
+    xml_parse x = ParseOk t /\
+    xml_meta pf64 pf32 fdiv x = Some m /\
+    forall d, In d (meta_descriptors m) ->
+      exists cnt, In (d, cnt) (combine (layout_descriptors 48 fl (len x)) (layout_contents fl)) /\
+                  desc_reads rs d cnt.
+Proof. exact spec_file_read_any_rendering. Qed.
+
+(** Independence of the rendering, as an equality between any two choices: same tree, same
+    metadata, same descriptors; with the XML as the last entry no placement depends on the
+    length of the XML, so the placement hypothesis above is the same statement for both. *)
+Theorem C03_rendering_independent : forall (pf64 pf32 : xstr -> option N) (fdiv : N -> Z -> N)
+    (fl : file_layout) (t : xdoc) (m : file_meta) (c1 c2 : render_choices),
+  wf_doc t = true -> extract_all pf64 pf32 fdiv t = Ok m ->
+  xml_parse (render c1 t) = xml_parse (render c2 t) /\
+  xml_meta pf64 pf32 fdiv (render c1 t) = xml_meta pf64 pf32 fdiv (render c2 t) /\
+  dx_of pf64 pf32 fdiv (render c1 t) = dx_of pf64 pf32 fdiv (render c2 t) /\
+  (forall l1, fl = l1 ++ [FXml] -> filter is_xml l1 = [] ->
+     layout_descriptors 48 fl (len (render c1 t)) = layout_descriptors 48 fl (len (render c2 t))).
+Proof. exact spec_file_read_rendering_independent. Qed.
+
+(** Non-vacuity: one tree, the writer's rendering and a very different one (single quotes,
+    hexadecimal references, blanks in tags, no declaration, byte order mark, no self-closing
+    tags, no CDATA), both read back. *)
+Theorem C03_any_rendering_instance : forall c, c = writer_choices \/ c = RenderInstance.other_choices ->
+  let x := render c (MetaTree.tree_of RenderInstance.meta2) in
+  let f := spec_encode_file RenderInstance.fl x in
+  exists rs d',
+    reader_open (dev_init f None)
+    = (d', Ok (rs, mkHeader 1 0 (len f) (phys_of_log (xml_start 48 RenderInstance.fl (len x))) (len x) 1024, x)) /\
+    pr_inv 1024 f rs /\
+    xml_parse x = ParseOk (MetaTree.tree_of RenderInstance.meta2) /\
+    xml_meta XmlInstance.pf XmlInstance.pf XmlInstance.fd x = Some RenderInstance.meta2' /\
+    forall d, In d (meta_descriptors RenderInstance.meta2') ->
+      exists cnt, In (d, cnt) (combine (layout_descriptors 48 RenderInstance.fl (len x)) (layout_contents RenderInstance.fl)) /\
+                  desc_reads rs d cnt.
+Proof. exact spec_file_read_any_rendering_instance. Qed.
+
+(** Omitted optional type attributes take their defaults: a prototype element with the
+    attribute omitted extracts to the same type as the element with the default written out
+    ([add_attr a v n] appends the attribute; [attribute a n = None] says it was omitted). *)
+Theorem C03_default_minimum : forall (pf64 pf32 : xstr -> option N) (n : xnode),
+  attribute TYPE n = Some s_Integer \/ attribute TYPE n = Some s_ScaledInteger ->
+  attribute s_minimum n = None ->
+  data_type_from_node pf64 pf32 (add_attr s_minimum s_i64_min n) = data_type_from_node pf64 pf32 n.
+Proof. exact default_minimum. Qed.
+
+Theorem C03_default_maximum : forall (pf64 pf32 : xstr -> option N) (n : xnode),
+  attribute TYPE n = Some s_Integer \/ attribute TYPE n = Some s_ScaledInteger ->
+  attribute s_maximum n = None ->
+  data_type_from_node pf64 pf32 (add_attr s_maximum s_i64_max n) = data_type_from_node pf64 pf32 n.
+Proof. exact default_maximum. Qed.
+
+(** scale 1 and offset 0: equal up to the source text the model keeps with a float (the
+    written-out "1" has text "1", the default has none); the oracle must read "1" as 1.0, "0" as 0.0 *)
+Theorem C03_default_scale : forall (pf64 pf32 : xstr -> option N) (n : xnode),
+  attribute TYPE n = Some s_ScaledInteger -> attribute s_scale n = None ->
+  pf64 s_one = Some f64_one_bits ->
+  res_map erase_text (data_type_from_node pf64 pf32 (add_attr s_scale s_one n))
+  = res_map erase_text (data_type_from_node pf64 pf32 n).
+Proof. exact default_scale_bits. Qed.
+
+Theorem C03_default_offset : forall (pf64 pf32 : xstr -> option N) (n : xnode),
+  attribute TYPE n = Some s_ScaledInteger -> attribute s_offset n = None ->
+  pf64 s_zero = Some 0 ->
+  res_map erase_text (data_type_from_node pf64 pf32 (add_attr s_offset s_zero n))
+  = res_map erase_text (data_type_from_node pf64 pf32 n).
+Proof. exact default_offset_bits. Qed.
+
+Theorem C03_default_precision : forall (pf64 pf32 : xstr -> option N) (n : xnode),
+  attribute TYPE n = Some s_Float -> attribute s_precision n = None ->
+  data_type_from_node pf64 pf32 (add_attr s_precision s_double n) = data_type_from_node pf64 pf32 n.
+Proof. exact default_precision. Qed.
+
+(** Float limits (no minimum/maximum is the default) do not touch the binary type. *)
+Theorem C03_float_limits_irrelevant : forall (pf64 pf32 : xstr -> option N) (n : xnode) (tmin tmax : xstr),
+  attribute TYPE n = Some s_Float ->
+  limit_parses pf64 pf32 n tmin -> limit_parses pf64 pf32 n tmax ->
+  res_map dtype_of (data_type_from_node pf64 pf32 (add_attr s_maximum tmax (add_attr s_minimum tmin n)))
+  = res_map dtype_of (data_type_from_node pf64 pf32 n).
+Proof. exact float_limits_irrelevant. Qed.
+
 Print Assumptions C03_any_layout.
 Print Assumptions C03_section_any_layout.
 Print Assumptions C03_needs_pcs_followed.
 Print Assumptions C03_instance.
 Print Assumptions C03_instance_computed.
+Print Assumptions C03_any_layout_any_rendering.
+Print Assumptions C03_rendering_independent.
+Print Assumptions C03_any_rendering_instance.
+Print Assumptions C03_default_minimum.
+Print Assumptions C03_default_maximum.
+Print Assumptions C03_default_scale.
+Print Assumptions C03_default_offset.
+Print Assumptions C03_default_precision.
+Print Assumptions C03_float_limits_irrelevant.
